@@ -3,7 +3,7 @@ package main
 // C19: wallet operations require a live token of that very wallet profile.
 //
 // input  := ops joined by ";"
-// op     := create U | open U | openshort U | openbad U | close U | expire
+// op     := create U | open U | openshort U | openbad U | close U | expire | expirep
 //         | add W T ID V | get W T ID | getall W T | remove W T ID | keypair W T
 //   U, W: profile (user) names; W is the wallet the operation is invoked on (a fresh wallet.New(W) instance per
 //   operation, as the REST controller does); T: "t<i>" = the i-th token ever issued in this history, "g" = garbage
@@ -54,8 +54,8 @@ func (p keepProvider) OpenStore(name string) (spi.Store, error) {
 var c19Counter uint64
 
 const (
-	c19ShortExpiry = 150 * time.Millisecond
-	c19ExpireSleep = 420 * time.Millisecond
+	c19ShortExpiry = 400 * time.Millisecond
+	c19ExpireSleep = 1000 * time.Millisecond
 )
 
 func c19Class(err error) string {
@@ -194,8 +194,13 @@ func c19Run(input string) string {
 			}
 			o = strconv.FormatBool(w.Close())
 		case "expire":
-			// enough time passes for every short-lived token to expire - while every token issued so far keeps being
-			// presented to the wallets of the OTHER profiles (all refused): a refused use must not keep a session alive
+			// enough time passes for every short-lived token to expire (nobody touches the sessions meanwhile: expired
+			// entries stay in the session cache until somebody looks)
+			time.Sleep(c19ExpireSleep)
+			o = "ok"
+		case "expirep":
+			// the same - while every token issued so far keeps being presented to the wallets of the OTHER profiles (all
+			// refused): a refused use must not keep a session alive
 			o = "ok"
 			for slice := 0; slice < 6; slice++ {
 				time.Sleep(c19ExpireSleep / 6)
@@ -376,7 +381,7 @@ func c19Gen(r *Rng, tier string) []string {
 				isOpen[u] = false
 			case 7, 8:
 				if withExpiry && r.N(2) == 0 {
-					ops = append(ops, "expire")
+					ops = append(ops, r.Pick([]string{"expire", "expirep", "expirep"}))
 				} else {
 					ops = append(ops, fmt.Sprintf("getall %s %s", u, pickTok()))
 				}
